@@ -41,6 +41,14 @@ def c01_probes() -> list[Item]:
                   [("PUSH", 32), ("PUSH", 0x40), ("PUSH", 0), ("PUSH", 0), ("PUSH", CALLEE), ("PUSH", 0xFFFFF), "STATICCALL",
                    ("PUSH", 0x60), "MSTORE", ("PUSH", 0xBEEF), "BALANCE", ("PUSH", 0x80), "MSTORE", ("PUSH", 0x80), ("PUSH", 0x40), "RETURN"],
                   accounts={CALLEE: callee}, balances={CALLEE: 10}))
+    # TSTORE is a state modification too: inside a static frame it halts the frame (EIP-1153), directly and one call deeper
+    tw = assemble([("PUSH", 0x2A), ("PUSH", 0), "TSTORE", "STOP"])
+    relay = assemble([("PUSH", 0), ("PUSH", 0), ("PUSH", 0), ("PUSH", 0), ("PUSH", 0), ("PUSH", CALLEE), ("PUSH", 0xFFFF), "CALL"] + RET)
+    out.append(_p("static-tstore",
+                  [("PUSH", 0), ("PUSH", 0), ("PUSH", 0), ("PUSH", 0), ("PUSH", CALLEE), ("PUSH", 0xFFFFF), "STATICCALL", ("PUSH", 0x40), "MSTORE",
+                   ("PUSH", 32), ("PUSH", 0x60), ("PUSH", 0), ("PUSH", 0), ("PUSH", CALLEE + 1), ("PUSH", 0xFFFFF), "STATICCALL", ("PUSH", 0x80), "MSTORE",
+                   ("PUSH", 0x60), ("PUSH", 0x40), "RETURN"],
+                  accounts={CALLEE: tw, CALLEE + 1: relay}))
     # EXTCODECOPY from an account without code writes `size` zero bytes over dirty memory
     out.append(_p("extcodecopy-no-code",
                   [("PUSHN", 32, (1 << 256) - 1), ("PUSH", 0), "MSTORE", ("PUSH", 32), ("PUSH", 5), ("PUSH", 0), ("PUSH", 0x9999), "EXTCODECOPY", ("PUSH", 0), "MLOAD"] + RET))
